@@ -912,6 +912,24 @@ static void s_ll_op(char **t, int n) {
         printf("P fvalid %d\n", v);
         return;
     }
+    if (n == 2 && !strcmp(op, "fempty")) {
+        /* aws_linked_list_empty looks at head.next only: with tail.prev forged to &head a non-empty list is still non-empty */
+        int j = s_parse_list(t[1]);
+        if (j < 0) {
+            printf("bad-op\n");
+            return;
+        }
+        if (!s_ll_init[j]) {
+            printf("P skip\n");
+            return;
+        }
+        struct aws_linked_list_node *saved = s_ll[j].tail.prev;
+        s_ll[j].tail.prev = &s_ll[j].head;
+        int v = aws_linked_list_empty(&s_ll[j]) ? 1 : 0;
+        s_ll[j].tail.prev = saved;
+        printf("P fempty %d\n", v);
+        return;
+    }
     if (n == 3 && !strcmp(op, "fdeep")) {
         int j = s_parse_list(t[1]), k = s_parse_node(t[2]);
         if (j < 0 || k < 0) {
